@@ -11,6 +11,7 @@ import (
 	"go/printer"
 	"go/token"
 	"os"
+	"path/filepath"
 	"sort"
 	"strings"
 )
@@ -385,6 +386,10 @@ func writePipeline(repo, outDir string, facts map[string]any) {
 	fmt.Fprintf(&b, "def pipeline : Prog := ⟨[\n%s\n]⟩\n\n", strings.Join(bodies, ",\n"))
 	fmt.Fprintf(&b, "/-- calls inside the translated functions that are neither translated functions nor external steps (read as `skip`) -/\ndef otherCalls : List String := %s\n\n", q(unk))
 	fmt.Fprintf(&b, "def opaqueStatements : List String := %s\n\n", q(opaque))
+	// the two primitives every `emit` / `close` of the skeleton stands for: their bodies, printed from the syntax tree on one line
+	prim := channelPrimitives(repo)
+	fmt.Fprintf(&b, "/-- body of `dispatchEvent`: what an `emit` statement of the skeleton does -/\ndef dispatchBody : String := %s\n\n", leanStr(prim["dispatchEvent"]))
+	fmt.Fprintf(&b, "/-- body of `CloseEventChan`: what a `close` statement of the skeleton does -/\ndef closeBody : String := %s\n\n", leanStr(prim["CloseEventChan"]))
 	var ss []string
 	for _, s := range starts {
 		ss = append(ss, fmt.Sprint(s))
@@ -401,4 +406,30 @@ func writePipeline(repo, outDir string, facts map[string]any) {
 	facts["pipeline_other_calls"] = unk
 	facts["pipeline_opaque"] = opaque
 	facts["events"] = events
+}
+
+// channelPrimitives prints the parameter list and body of dispatchEvent and CloseEventChan (internal/validator/events.go)
+// in a canonical one-line form
+func channelPrimitives(repo string) map[string]string {
+	out := map[string]string{"dispatchEvent": "<not found>", "CloseEventChan": "<not found>"}
+	fset := token.NewFileSet()
+	f, err := parser.ParseFile(fset, filepath.Join(repo, "internal", "validator", "events.go"), nil, 0)
+	if err != nil {
+		return out
+	}
+	for _, d := range f.Decls {
+		fd, ok := d.(*ast.FuncDecl)
+		if !ok || fd.Body == nil {
+			continue
+		}
+		if _, want := out[fd.Name.Name]; !want {
+			continue
+		}
+		var sb strings.Builder
+		printer.Fprint(&sb, fset, fd.Type.Params)
+		sb.WriteString(" ")
+		printer.Fprint(&sb, fset, fd.Body)
+		out[fd.Name.Name] = strings.Join(strings.Fields(sb.String()), " ")
+	}
+	return out
 }
